@@ -10,6 +10,7 @@ import (
 	"fmt"
 	"os"
 	"runtime"
+	"strings"
 	"sync"
 	"sync/atomic"
 	"testing"
@@ -31,6 +32,8 @@ type scen struct {
 	Callers    int           `json:"callers"`
 	Idle       time.Duration `json:"idle"`
 	MaxWorkers int           `json:"max_workers"`
+	// PauseBeforeNear lets a burst finish and the grown pool go idle (not wind down) before "near" is issued
+	PauseBeforeNear time.Duration `json:"pause_before_near,omitempty"`
 }
 
 var elements = []string{"far", "near", "burst", "cancelhead", "idlegap"}
@@ -74,6 +77,15 @@ func scenarios(run *report.Run) []scen {
 			}
 		}
 	}
+	// a missed or misdirected wake-up costs up to one idle timeout: with a long idle timeout it becomes
+	// visible as lateness. Short patterns (no idle gap, which would take 12 s) in every tier.
+	for _, p := range [][]string{{"burst", "near"}, {"far", "burst", "near"}, {"burst", "cancelhead", "near"}, {"burst", "near", "burst", "near"}} {
+		for _, callers := range []int{1, 4} {
+			for _, mw := range []int{2, 10} {
+				res = append(res, scen{Order: p, Callers: callers, Idle: 3 * time.Second, MaxWorkers: mw, PauseBeforeNear: 300 * time.Millisecond})
+			}
+		}
+	}
 	return res
 }
 
@@ -101,6 +113,9 @@ func runScenario(sc scen) (fs []tmon.Finding, nFut int, stats map[string]int64, 
 	}()
 	var maxWorkersSeen int64
 	for _, el := range sc.Order {
+		if el == "near" && sc.PauseBeforeNear > 0 {
+			time.Sleep(sc.PauseBeforeNear)
+		}
 		var wg sync.WaitGroup
 		for c := 0; c < sc.Callers; c++ {
 			wg.Add(1)
@@ -160,11 +175,17 @@ func runScenario(sc scen) (fs []tmon.Finding, nFut int, stats map[string]int64, 
 		}
 	}
 	idleFrom := time.Now()
-	final, lost := tmon.Drain(90 * time.Second)
+	// the watchdog is far above the wind-down bound ((limit+3) idle periods + 2 s): nothing pending and
+	// workers still alive when it fires means the package does not wind down
+	watchdog := 4*(time.Duration(sc.MaxWorkers+3)*sc.Idle+2*time.Second) + 20*time.Second
+	final, lost := tmon.Drain(watchdog)
 	windDown := time.Since(idleFrom)
 	if !final {
 		close(stop)
 		hwg.Wait()
+		if strings.HasPrefix(lost, "NO-WIND-DOWN") {
+			return []tmon.Finding{{Sig: "timer/no-wind-down", What: fmt.Sprintf("nothing is pending, but %v later (idle timeout %v, pool limit %d) the package still has workers: %s", watchdog, sc.Idle, sc.MaxWorkers, lost), TimeBound: true}}, len(mon.Futures()), stats, ""
+		}
 		return nil, len(mon.Futures()), stats, "drain watchdog: " + lost
 	}
 	if lost != "" {
